@@ -327,9 +327,10 @@ Inductive input :=
 | InFnErr (h : head)                      (* syn could not parse a signature *)
 | InTrait (h : head) (t : item_trait)     (* t parsed from the [trait] keyword on: no attrs / vis / unsafe / auto *)
 | InTraitErr (h : head)
-| InImpl (h : head) (trait_path self_ty body : toks) (sigs : list sig_at)
+| InImpl (h : head) (trait_path self_ty body : toks) (sigs : list sig_at) (syn_fns : option (list string))
 | InImplErr (h : head)
-| InMod (h : head) (name : string) (body : toks) (sigs : list sig_at)
+| InMod (h : head) (name : string) (body : toks) (sigs : list sig_at) (syn_fns : option (list string))
+   (* syn_fns: names of the fns syn's own item parser finds directly in the body (mod: visible ones) *)
 | InModErr (h : head)
 | InHeadErr.
 
@@ -341,7 +342,7 @@ Definition print_input (i : input) : option toks :=
   match i with
   | InFn h s body => Some (print_head h ++ print_sig s ++ body)
   | InTrait h t => Some (print_head h ++ print_trait t)
-  | InImpl h tp st body _ => Some (print_head h ++ [TId "impl"] ++ tp ++ [TId "for"] ++ st ++ [TG Brace body])
-  | InMod h name body _ => Some (print_head h ++ [TId "mod"; TId name; TG Brace body])
+  | InImpl h tp st body _ _ => Some (print_head h ++ [TId "impl"] ++ tp ++ [TId "for"] ++ st ++ [TG Brace body])
+  | InMod h name body _ _ => Some (print_head h ++ [TId "mod"; TId name; TG Brace body])
   | _ => None
   end.
